@@ -85,7 +85,8 @@ def harness_dir():
     d = os.path.join(REPO, ".verif_harness")
     os.makedirs(os.path.join(d, "src"), exist_ok=True)
     os.makedirs(os.path.join(d, ".cargo"), exist_ok=True)
-    for rel in ("src/main.rs", "Cargo.lock", ".cargo/config.toml"):
+    rels = ["src/" + f for f in sorted(os.listdir(os.path.join(HARNESS, "src"))) if f.endswith(".rs")] + ["Cargo.lock", ".cargo/config.toml"]
+    for rel in rels:
         src = open(os.path.join(HARNESS, rel)).read()
         dst = os.path.join(d, rel)
         if not os.path.exists(dst) or open(dst).read() != src:
